@@ -829,6 +829,115 @@ fn scenario_kill_then_drop(seed: u64) {
 }
 
 // ------------------------------------------------------------------------------------------------
+// C06 from a plain thread: kill() never blocks, busy actor or not, first call or repeated. The handler in progress
+// only finishes after kill() has returned twice (the gate opens afterwards), so a kill() that waits for the actor
+// leaves every thread blocked: Miri's deadlock verdict. Afterwards: killed = true, leftovers never handled, their asks fail.
+fn scenario_kill_busy_from_thread(seed: u64) {
+    let mut rng = Rng(seed);
+    let rt = rt();
+    let cap = 2 + rng.below(3) as usize;
+    let (r, jh, journal, gate) = new_actor(&rt, cap, true);
+    let gate = gate.unwrap();
+    r.blocking_tell(Job(1, true), None).unwrap();
+    while journal.lock().unwrap().entered < 1 {
+        std::thread::sleep(Duration::from_millis(1));
+    }
+    let queued = rng.below(cap as u64);
+    for i in 0..queued {
+        r.blocking_tell(Job(10 + i, false), None).unwrap();
+    }
+    let asker = {
+        let r = r.clone();
+        rt.spawn(async move { r.ask(Job(50, false)).await.map(|rc| rc.id).map_err(|e| err_kind(&e)) })
+    };
+    std::thread::sleep(Duration::from_millis(5));
+    // this thread has no runtime context
+    let k1 = r.kill();
+    let k2 = if rng.below(2) == 0 { r.kill() } else { Ok(()) };
+    ev(format!("kill-busy-from-thread cap={cap} queued={queued} kill={:?}/{:?}", k1.is_ok(), k2.is_ok()));
+    if k1.is_err() || k2.is_err() {
+        violation("C06", "kill-failed", "kill() returned an error".into());
+    }
+    gate.add_permits(8);
+    let out = rt.block_on(jh);
+    let asked = rt.block_on(asker).unwrap();
+    let j = journal.lock().unwrap();
+    match out {
+        Ok(res) => {
+            if !res.was_killed() {
+                violation("C06", "kill-not-reported", "killed actor did not report killed=true".into());
+            }
+        }
+        Err(e) => violation("C07", "unexpected-panic", format!("actor task failed: {e}")),
+    }
+    if j.handled.len() > 2 {
+        violation("C06", "handlers-after-kill", format!("{} handlers completed although kill() returned while the first one was still in progress", j.handled.len()));
+    }
+    if asked.is_ok() && !j.handled.contains(&50) {
+        violation("C03", "ok-without-handler", "an ask queued behind the kill returned Ok".into());
+    }
+}
+
+// ------------------------------------------------------------------------------------------------
+// C17: timed blocking calls that are *waiting* (for room in a full mailbox, for a reply) when the actor ends must report
+// what the async API reports - the actor stopped (Send / Receive) - at that moment: never Timeout (their deadline is an
+// hour away), never a hang.
+fn scenario_timed_blocking_vs_end(seed: u64) {
+    let mut rng = Rng(seed);
+    let rt = rt();
+    let (r, jh, journal, gate) = new_actor(&rt, 1, true);
+    let gate = gate.unwrap();
+    r.blocking_tell(Job(1, true), None).unwrap();
+    while journal.lock().unwrap().entered < 1 {
+        std::thread::sleep(Duration::from_millis(1));
+    }
+    let fill = rng.below(3) != 0;
+    if fill {
+        r.blocking_tell(Job(2, false), None).unwrap(); // the mailbox is full now
+    }
+    let hour = Duration::from_secs(3600);
+    let started = Arc::new(AtomicU64::new(0));
+    let mut threads = Vec::new();
+    for c in 0..1 + rng.below(2) {
+        let r = r.clone();
+        let started = started.clone();
+        let use_ask = rng.below(2) == 0;
+        threads.push(std::thread::spawn(move || {
+            started.fetch_add(1, Ordering::SeqCst);
+            let res = if use_ask { r.blocking_ask(Job(100 + c, false), Some(hour)).map(|_| ()) } else { r.blocking_tell(Job(100 + c, false), Some(hour)) };
+            match res {
+                Ok(()) => "ok",
+                Err(e) => err_kind(&e),
+            }
+        }));
+    }
+    let n = threads.len() as u64;
+    while started.load(Ordering::SeqCst) < n {
+        std::thread::sleep(Duration::from_millis(1));
+    }
+    std::thread::sleep(Duration::from_millis(100 + rng.below(400)));
+    let ending = rng.below(2);
+    if ending == 0 {
+        r.kill().unwrap();
+    } else {
+        let _ = rt.block_on(r.tell_with_timeout(Poison(9), Duration::from_millis(1)));
+        r.kill().unwrap();
+    }
+    gate.add_permits(8);
+    let mut outcomes = Vec::new();
+    for t in threads {
+        outcomes.push(t.join().unwrap());
+    }
+    let _ = rt.block_on(jh);
+    ev(format!("timed-blocking-vs-end fill={fill} ending={ending} outcomes={outcomes:?}"));
+    for o in &outcomes {
+        if !matches!(*o, "ok" | "Send" | "Receive") {
+            violation("C17", "wrong-error-when-actor-ends", format!("a timed blocking call (deadline an hour away) that was waiting when the actor ended returned {o}"));
+        }
+    }
+}
+
+// ------------------------------------------------------------------------------------------------
 // C17 "given a timeout they return by the deadline", across threads: one thread's timed call that legitimately waits
 // out a long timeout on a stuck actor must not delay another thread's timed calls - neither to a healthy actor nor to
 // the stuck one. Miri's clock charges virtual time for executed code, so the bound is generous (a third of the long
@@ -1396,6 +1505,8 @@ fn main() {
         "dd_mt" => scenario_dd_mt(seed),
         "erased_blocking" => scenario_erased_blocking(seed),
         "timed_independent" => scenario_timed_independent(seed),
+        "kill_busy_from_thread" => scenario_kill_busy_from_thread(seed),
+        "timed_blocking_vs_end" => scenario_timed_blocking_vs_end(seed),
         "metrics_mt" => scenario_metrics_mt(seed),
         "blocking_ask_vs_end" => scenario_blocking_ask_vs_end(seed),
         "deadletters" => scenario_deadletters(seed),
